@@ -10,6 +10,45 @@ import MosVerif.Model.Retry
 namespace MosVerif.Retry
 open MosVerif
 
+theorem id_pure_c14 {α : Type} (x : α) : (pure x : Id α) = x := rfl
+
+/-- normalise a translated fragment: unfold the `do` block, split its `if`s, Bool equality as `↔`, then
+    simplification and linear arithmetic -/
+local macro "tie_tac" : tactic => `(tactic| (
+  (try simp only [Id.run, id_pure_c14])
+  <;> (try (repeat' split))
+  <;> (try (rw [Bool.eq_iff_iff]))
+  <;> (try simp_all)
+  <;> (try omega)))
+
+/-! the translated conditions in the model's form (case analysis + linear arithmetic: a rewrite of the Go text that
+    keeps the meaning — `retry <= 4`, swapped conjuncts — keeps them provable, a change of meaning does not) -/
+
+theorem pipeline_retryCond_eq (newConn : Bool) (retry : Nat) (done : Bool) :
+    Translated.pipeline_retryCond newConn retry done = (!newConn && decide (retry < 5) && !done) := by
+  unfold Translated.pipeline_retryCond
+  cases newConn <;> cases done <;> tie_tac
+
+theorem quic_retryCond_eq (newConn : Bool) (retry : Nat) (done : Bool) :
+    Translated.quic_retryCond newConn retry done = (!newConn && decide (retry < 5) && !done) := by
+  unfold Translated.quic_retryCond
+  cases newConn <;> cases done <;> tie_tac
+
+theorem reuse_poolCond_eq' (retry : Nat) : Translated.reuse_poolCond retry = decide (retry ≤ 5) := by
+  unfold Translated.reuse_poolCond
+  tie_tac
+
+theorem reuse_retryCond_eq' (new : Bool) (retry : Nat) (done : Bool) :
+    Translated.reuse_retryCond new retry done = (!new && decide (retry ≤ 5) && !done) := by
+  unfold Translated.reuse_retryCond
+  cases new <;> cases done <;> tie_tac
+
+theorem doh_retryCond_eq (connErr reused quicErr h3Err : Bool) (retry : Nat) (alive : Bool) :
+    Translated.doh_retryCond connErr reused quicErr h3Err retry alive =
+      (connErr && (reused || quicErr || h3Err) && decide (retry < 3) && alive) := by
+  unfold Translated.doh_retryCond
+  cases connErr <;> cases reused <;> cases quicErr <;> cases h3Err <;> cases alive <;> tie_tac
+
 theorem pipelineLoop_translated (o : Oracle) (retry i : Nat) :
     pipelineLoop o retry i =
       match (o i).get with
@@ -22,7 +61,7 @@ theorem pipelineLoop_translated (o : Oracle) (retry i : Nat) :
           if Translated.pipeline_retryCond (g == .fresh) retry (o i).ctxDone then pipelineLoop o (retry + 1) (i + 1)
           else ⟨none, i + 1⟩ := by
   rw [pipelineLoop]
-  unfold Translated.pipeline_retryCond
+  simp only [pipeline_retryCond_eq]
   cases hg : (o i).get <;> cases hr : (o i).res <;> cases hc : (o i).ctxDone <;>
     by_cases h : retry < 5 <;> simp [h]
 
@@ -39,7 +78,7 @@ theorem quicLoop_translated (o : Oracle) (retry i : Nat) (forgot : Bool) :
           if Translated.quic_retryCond (g == .fresh) retry a.ctxDone then quicLoop o (retry + 1) (i + 1) a.connErr
           else ⟨none, i + 1⟩ := by
   rw [quicLoop]
-  unfold Translated.quic_retryCond
+  simp only [quic_retryCond_eq]
   generalize (if forgot then forcedDial (o i) else o i) = a
   cases a with
   | mk g r c f fd ce =>
@@ -58,7 +97,7 @@ theorem reuseLoop_translated (o : Oracle) (retry i : Nat) :
           if Translated.reuse_retryCond (g == .fresh) retry a.ctxDone then reuseLoop o (retry + 1) (i + 1)
           else ⟨none, i + 1⟩ := by
   rw [reuseLoop]
-  unfold Translated.reuse_retryCond Translated.reuse_poolCond
+  simp only [reuse_retryCond_eq', reuse_poolCond_eq']
   by_cases h : retry ≤ 5
   · simp only [h, decide_true, if_true]
     cases hg : (o i).get <;> cases hr : (o i).res <;> cases hc : (o i).ctxDone <;> simp
@@ -80,7 +119,7 @@ theorem dohLoop_translated (o : Oracle) (retry i : Nat) (quicErr h3Err : Bool)
         dohLoop o (retry + 1) (i + 1)
       else ⟨none, i + 1⟩ := by
   rw [dohLoop]
-  unfold Translated.doh_retryCond
+  simp only [doh_retryCond_eq]
   generalize o i = a at hsplit ⊢
   cases a with
   | mk g x c f fd ce re =>
